@@ -205,4 +205,9 @@ example :
 theorem async_shape_of_source :
     Queue.ShapeGen.asyncSnapshotUnderLock = true ∧ Queue.ShapeGen.asyncSkipsForeignLoop = true := by decide
 
+/-- tie G for "a sink error never stops the worker": whatever `ErrorInterceptor.print` does with `sys.stderr` happens
+inside the `try` that swallows `OSError`, so a broken `sys.stderr` cannot make the worker's own error report raise
+out of `_queued_writer` (which would end the thread and lose every later message). -/
+theorem error_report_never_kills_the_worker : Queue.ShapeGen.reportGuardsStderr = true := by decide
+
 end C03
